@@ -528,6 +528,46 @@ pub struct VSpec {
     /// two distinguishable validators for one key
     #[serde(default)]
     pub second: bool,
+    /// != 0: the claim object handed to validate_claim is a USER-DEFINED claim type (harness `OddClaim`) that only names the
+    /// key and serialises as a unit (1), a string (2), an object without a member of that name (3) or with extra members (4)
+    #[serde(default)]
+    pub odd: u8,
+}
+
+/// a claim type the crate does not ship: PasetoClaim only promises get_key(); how the claim serialises is the user's business
+pub struct OddClaim {
+    key: String,
+    shape: u8,
+}
+impl OddClaim {
+    pub fn new(key: &str, shape: u8) -> Self {
+        OddClaim { key: key.to_string(), shape }
+    }
+}
+impl PasetoClaim for OddClaim {
+    fn get_key(&self) -> &str {
+        &self.key
+    }
+}
+impl serde::Serialize for OddClaim {
+    fn serialize<S: serde::Serializer>(&self, s: S) -> Result<S::Ok, S::Error> {
+        use serde::ser::SerializeMap;
+        match self.shape {
+            1 => s.serialize_unit(),
+            2 => s.serialize_str("marker"),
+            3 => {
+                let mut m = s.serialize_map(Some(1))?;
+                m.serialize_entry("some-other-name", &1)?;
+                m.end()
+            }
+            _ => {
+                let mut m = s.serialize_map(Some(2))?;
+                m.serialize_entry(&self.key, "placeholder")?;
+                m.serialize_entry("extra", &2)?;
+                m.end()
+            }
+        }
+    }
 }
 
 #[derive(Clone, Debug, Default, Serialize, Deserialize, PartialEq)]
@@ -958,7 +998,11 @@ macro_rules! impl_proto {
                     for v in &cfg.validators {
                         match v.reg {
                             VReg::ValidateClaim => {
+                                if v.odd != 0 {
+                                p.validate_claim(OddClaim::new(v.claim.key(), v.odd), hv_for(v));
+                            } else {
                                 check_claim_on!(p, &v.claim, validate_claim, hv_for(v))?;
+                            }
                             }
                             VReg::ExtendOnly => {
                                 ext.insert(v.claim.key().to_string(), Box::new(*hv_for(v)));
@@ -1020,7 +1064,11 @@ macro_rules! impl_proto {
                     }
                     } else {
                     for v in &cfg.validators {
-                        check_claim_on!(p, &v.claim, validate_claim, hv_for(v))?;
+                        if v.odd != 0 {
+                                p.validate_claim(OddClaim::new(v.claim.key(), v.odd), hv_for(v));
+                            } else {
+                                check_claim_on!(p, &v.claim, validate_claim, hv_for(v))?;
+                            }
                     }
                     }
                 }
